@@ -320,6 +320,12 @@ def registration_leg(params, res):
         # taken (any sequence is a possible outcome of randrange; with 63
         # of 64 numbers taken 64 misses in a row have a chance of 36 %)
         taken = [i for _, i, _ in (hostile["live"] or {}).values()]
+        hostile["draws"] = hostile.get("draws", 0) + 1
+        if hostile["draws"] > 20000:
+            # (a bound in draws, not in seconds: with at most three live
+            # groups one of the four numbers is free)
+            raise RuntimeError("registration: 20000 draws without finding "
+                               "a free number")
         if hostile["collide"] > 0 and taken:
             hostile["collide"] -= 1
             res.count("registration_draws_that_hit_a_taken_number")
@@ -345,6 +351,19 @@ def registration_leg(params, res):
                         history.append(("end", k, idx))
                         try:
                             ctx.__exit__(None, None, None)
+                            if idx not in [i for _, i, _ in live.values()] \
+                                    and kern.map_lookup(
+                                        ecs[0].programs,
+                                        struct.pack("<I", idx), 4) \
+                                    is not None:
+                                res.violation(
+                                    "unexplained:ended-group-keeps-its-"
+                                    "program-slot",
+                                    f"group {k} (number {idx}) has ended, "
+                                    f"its slot of the program table is "
+                                    f"still set", case=dict(history=history))
+                                live.clear()
+                                break
                         except Exception as ex:
                             res.violation(
                                 "unexplained:unregistering-raised",
@@ -361,10 +380,21 @@ def registration_leg(params, res):
                             v[SyncManager.IN, 0], v[SyncManager.OUT, 0])])
                         sg.allocate()
                         hostile["live"] = live
+                        hostile["draws"] = 0
                         hostile["collide"] = rng.choice(
                             [0, 0, 1, 5, 63, 64, 65, 200])
                         ctx = ecs[m].register_sync_group(sg)
-                        idx = ctx.__enter__()
+                        try:
+                            idx = ctx.__enter__()
+                        except RuntimeError as ex:
+                            res.violation(
+                                "unexplained:registration-never-finds-a-"
+                                "free-number",
+                                f"{ex}; live groups hold "
+                                f"{[i for _, i, _ in live.values()]}, "
+                                f"history {history}",
+                                case=dict(history=history))
+                            break
                         hostile["collide"] = 0
                         live[n] = (ctx, idx, m)
                         history.append(("register", n, idx, m))
@@ -512,8 +542,19 @@ def migration_leg(params, res):
         index = rng.choice([5, 0, 63, 17])
         p_switch = rng.choice([0.0, 0.1, 0.3, 0.5])
         p_loss = rng.choice([0.0, 0.0, 0.05, 0.15])
+        two_loops = hist % 3 == 0
         with kern.session() as sess:
-            w = dispatch.World(sess, layout, True, index)
+            try:
+                w = dispatch.World(sess, layout, True, index)
+                # a second master on another interface in the same process,
+                # its group under the same number: its frames go through
+                # its own dispatcher, in between the first one's
+                w_other = dispatch.World(sess, layout, True, index) \
+                    if two_loops else None
+            except OSError as ex:
+                res.count("migration_histories_whose_world_was_not_built")
+                res.info["world_not_built"] = str(ex)[:100]
+                continue
             try:
                 runs_pos = [d.__dict__["runs"] for d in w.devs]
 
@@ -526,12 +567,28 @@ def migration_leg(params, res):
                 fresh = w.frame((0, tuple(False for _ in w.writers),
                                  tuple("0" for _ in w.writers)))
                 wire = [fresh, fresh]
+                if w_other is not None:
+                    w_other.props[w_other.wpos:w_other.wpos + 4] = \
+                        struct.pack("<I", 1)
+                    wire_other = [fresh, fresh]
+                    res.count("migration_histories_next_to_a_second_loop")
                 cpu = rng.choice(allowed)
                 os.sched_setaffinity(0, {cpu})
                 cpus_used = {cpu}
                 streak = worst = 0
                 trace = []
                 for step in range(params["steps"]):
+                    if w_other is not None:
+                        # the other loop's frames in between (answered
+                        # correctly, never lost)
+                        for _ in range(rng.choice([0, 1, 1, 2, 5])):
+                            g = wire_other.pop(0)
+                            i0, en_, _wk = w_other.abstract(g)
+                            g = w_other.frame((i0, en_, tuple(
+                                "ok" if e_ else "0" for e_ in en_)))
+                            r_, o_ = w_other.dl.run_k(g)[:2]
+                            wire_other.append(bytes(o_) if r_ == dispatch.TX
+                                              else fresh)
                     f = wire.pop(0)
                     if rng.random() < p_loss:
                         wire.append(fresh)      # time-out, fed in again
@@ -560,7 +617,7 @@ def migration_leg(params, res):
                         wire.append(fresh)
                 desc = dict(migration=True, layout=layout, index=index,
                             p_switch=p_switch, p_loss=p_loss,
-                            cpus=len(cpus_used))
+                            cpus=len(cpus_used), second_loop=two_loops)
                 res.case(["migration", hist, desc],
                          nontrivial=len(cpus_used) > 1)
                 res.count("migration_histories")
@@ -577,6 +634,8 @@ def migration_leg(params, res):
             finally:
                 os.sched_setaffinity(0, set(allowed))
                 w.close()
+                if w_other is not None:
+                    w_other.close()
 
 
 def run_shard(params):
